@@ -52,6 +52,19 @@ struct Trees {
     neg: Option<Node>,
     not: Option<Node>,
     opassign: Vec<Option<Node>>,
+    /// builtin functions disabled, and every builtin name bound to a user function that returns a marker: operators
+    /// are part of the language, not of the function library
+    hostile: Ctx,
+}
+
+fn hostile_ctx() -> Ctx {
+    use evalexpr::{Context, ContextWithMutableFunctions, Function, Value};
+    let mut c = Ctx::new();
+    for n in crate::refmodel::builtins::BUILTINS.iter() {
+        let _ = c.set_function(n.to_string(), Function::new(|_| Ok(Value::String("<user function called by an operator>".into()))));
+    }
+    let _ = c.set_builtin_functions_disabled(true);
+    c
 }
 
 fn trees() -> Trees {
@@ -64,6 +77,7 @@ fn trees() -> Trees {
         neg: b("-a".into()),
         not: b("!a".into()),
         opassign: OPASSIGN.iter().map(|op| b(format!("a {}= b", op))).collect(),
+        hostile: hostile_ctx(),
     }
 }
 
@@ -92,6 +106,21 @@ fn check_case(out: &mut Out, trees: &Trees, opi: usize, a: &RV, b: &RV, literals
                     format!("a {} b with a={} b={}", op, a.show(), b.show()),
                     show_exp(&exp),
                     got.show(),
+                );
+            }
+            // route 1c: a context without builtins whose user functions shadow every builtin name
+            let mut h = trees.hostile.clone();
+            let _ = h.set_value("a".into(), a.to_value());
+            let _ = h.set_value("b".into(), b.to_value());
+            let got_h = api::eval_tree(t, &h);
+            out.eval();
+            out.count("function-hostile context route");
+            if !accept(&exp, &got_h) {
+                out.violation(
+                    "binary-operator/depends-on-context-functions",
+                    format!("a {} b with a={} b={} in a context with builtins disabled and all 49 builtin names bound to user functions", op, a.show(), b.show()),
+                    show_exp(&exp),
+                    got_h.show(),
                 );
             }
         },
@@ -193,6 +222,13 @@ fn check_prefix(out: &mut Out, trees: &Trees, which: usize, a: &RV, literals: bo
         out.sample(|| format!("{}  =>  {}", key, got.show()));
         if !accept(&exp, &got) {
             out.violation("prefix-operator/variables", format!("{}a with a={}", sym, a.show()), show_exp(&exp), got.show());
+        }
+        let mut h = trees.hostile.clone();
+        let _ = h.set_value("a".into(), a.to_value());
+        let got_h = api::eval_tree(t, &h);
+        out.eval();
+        if !accept(&exp, &got_h) {
+            out.violation("prefix-operator/depends-on-context-functions", format!("{}a with a={} in a context with builtins disabled and all builtin names bound to user functions", sym, a.show()), show_exp(&exp), got_h.show());
         }
     }
     if literals {
